@@ -3,7 +3,7 @@
    Models: Model/CMap.v (repaired code; *_v0 = the code as pinned), Model/RangeMap.v,
    Model/CMapParser.v.  Spec: Spec/CMapSpec.v. *)
 From LV Require Import Base.Bytes Model.RangeMap Model.CMap Model.CMapParser Spec.CMapSpec Gen.CMapC
-  Proofs.CMapProofs Proofs.CMapProofsText.
+  Proofs.CMapProofs Proofs.CMapProofsText Proofs.CMapParserProofs.
 
 Local Open Scope N_scope.
 
@@ -50,6 +50,30 @@ Theorem C15_decodes :
   Forall (defined_code secs) codes ->
   bytes_to_string cm (concat (map (fun x => fst (fst x)) codes)) = concat (map snd codes).
 Proof. exact decodes_as_defined. Qed.
+
+(* (5) The model of the CMap grammar (Model/CMapParser.v) never answers "out of fuel": its loops
+   (many0 / many1 / separated_list1 / the PDF dictionary after /CIDSystemInfo) are started with
+   fuel = length of their input + 1, which is enough for EVERY byte string, well-formed, malformed
+   or truncated.  So the correspondence runs compare a real outcome of the model on every case. *)
+Theorem C15_parser_fuel_sufficient : forall bs, cmap_parse bs <> ParseOutOfFuel.
+Proof. exact cmap_parse_fuel. Qed.
+
+Theorem C15_parser_stream_fuel_sufficient : forall bs, cmap_stream bs <> POutOfFuel.
+Proof. exact cmap_stream_fuel. Qed.
+
+(* ... and every element parser of a repetition consumes at least one byte when it succeeds, so the
+   guards of nom's many0 / many1 / separated_list1 against a parser that succeeds without
+   consuming can never fire; the model has no such branch. *)
+Theorem C15_parser_repetitions_consume :
+  consumes cmap_section /\ consumes cs_range_line /\ consumes bf_char_line /\ consumes bf_range_line /\
+  consumes space1 /\ consumes target_string /\ consumes hex_char /\ consumes hex_u16 /\ consumes name.
+Proof. exact repetition_elements_consume. Qed.
+
+(* non-vacuity / regression: the input on which the model used to run out of fuel (an array target
+   cut off right after its first string: separated_list1 meets the end of input) is a parse error *)
+Theorem C15_example_truncated_array :
+  range_target_array (bs "[ <0041>") = PErr /\ target_list_rest 1 [] = POk [] [].
+Proof. split; vm_compute; reflexivity. Qed.
 
 (* ---------- the pinned code (before the fix: commits) violates (1) and (4) ---------- *)
 
@@ -136,6 +160,10 @@ Print Assumptions C15_segmentation.
 Print Assumptions C15_surrogates_pair.
 Print Assumptions C15_decode_utf16.
 Print Assumptions C15_decodes.
+Print Assumptions C15_parser_fuel_sufficient.
+Print Assumptions C15_parser_stream_fuel_sufficient.
+Print Assumptions C15_parser_repetitions_consume.
+Print Assumptions C15_example_truncated_array.
 Print Assumptions C15_pinned_split_refuted.
 Print Assumptions C15_pinned_coalesce_refuted.
 Print Assumptions C15_pinned_coalesce_array_panics.
